@@ -174,9 +174,15 @@ def _ops_obs(path):
     return out
 
 
-def _find_obs(start, label, path, single, strict):
+def _find_obs(start, label, path, single, strict, as_segments=None):
     try:
-        r = start.find(path, single=single, strict=strict)
+        # find() also accepts an iterable of segments (pathexpr joins it with "/")
+        arg = path
+        if as_segments == "tuple":
+            arg = tuple(path.split("/"))
+        elif as_segments == "list":
+            arg = path.split("/")
+        r = start.find(arg, single=single, strict=strict)
     except Exception as e:  # noqa: BLE001
         return {"error": cm.exc_name(e)}
     if single:
@@ -240,8 +246,10 @@ class C14(Property):
     thorough_n = 900000
 
     # -------------------------------------------------------------- cases
-    def _case(self, tree, start, path, strict, single, ast=None):
+    def _case(self, tree, start, path, strict, single, ast=None, as_segments=None):
         c = {"tree": tree, "start": start, "path": path, "strict": strict, "single": single}
+        if as_segments:
+            c["as_segments"] = as_segments
         if ast is not None:
             c["ast"] = ast
         return c
@@ -274,6 +282,9 @@ class C14(Property):
             {"t": "name", "s": "l", "br": False, "sep": False, "escall": False},
             {"t": "slice", "a": None, "b": None, "sep": False}, {"t": "up"}]}
         out.append(self._case(d, 0, "l[:]/..", True, False, ast4))
+        # open: KF-C14-c — tuple path, single+strict, several matches: TypeError from the message formatting
+        out.append(self._case(d, 0, "l/[:]", True, True, None, "tuple"))
+        out.append(self._case(d, 0, "l/[:]", True, True, None, "list"))
         # tokenizer quirks kept as regression cases (no AST: correspondence only)
         for p in ["a/[x]", "a\\/b[x]", "[1][x]", "x[a\\]b]", "[1]\n", "[1]\n\n", "[-]", "[1:2-3]", "//", "a//", "[::0]",
                   "[" + "0" * 4301 + "]", "[-" + "0" * 4301 + "]", "l/" + "0" * 4301, "l/" + "0" * 4300, "[0:٣]", "l[ 1]", "l/ 1 ",
@@ -356,14 +367,14 @@ class C14(Property):
                 r = rng.random()
                 if r < 0.15:
                     path = _rand_malformed(rng, tree)
-                    yield self._case(tree, start["id"], path, strict, single)
+                    yield self._case(tree, start["id"], path, strict, single, None, rng.choice([None] * 9 + ["list"]))
                 else:
                     top = rng.random() < 0.3
                     walk_from = tree if top else start
                     steps = _rand_steps(rng, tree, walk_from, rng.choice([0, 1, 1, 2, 2, 3, 3, 4, 5, 6]),
                                         p_miss=rng.choice([0.0, 0.0, 0.1, 0.3]), canon=rng.random() < 0.75)
                     ast = {"top": top, "trail": rng.random() < 0.2, "steps": steps}
-                    yield self._case(tree, start["id"], cm.print_path(ast), strict, single, ast)
+                    yield self._case(tree, start["id"], cm.print_path(ast), strict, single, ast, rng.choice([None] * 17 + ["list", "list", "tuple"]))
                 made += 1
 
     # -------------------------------------------------------------- implementation
@@ -372,7 +383,7 @@ class C14(Property):
         start = byid[case["start"]]
         obs = {
             "ops": _ops_obs(case["path"]),
-            "result": _find_obs(start, label, case["path"], case["single"], case["strict"]),
+            "result": _find_obs(start, label, case["path"], case["single"], case["strict"], case.get("as_segments")),
         }
         ast = case.get("ast")
         if ast is not None:
@@ -407,6 +418,12 @@ class C14(Property):
             fails.append({"clause": "results-are-elements", "expected": "labels", "observed": got})
         if not strict and as_list.get("error") == "LookupError":
             fails.append({"clause": "non-strict-never-raises-LookupError", "expected": "a list", "observed": as_list})
+        # an iterable of segments is the same path as the "/"-joined string
+        if case.get("as_segments"):
+            via_segments = _find_obs(start, label, path, single, strict, case["as_segments"])
+            if via_segments != observed:
+                fails.append({"clause": "segments-equal-string", "expected": observed, "observed": via_segments,
+                              "several": len(as_list.get("list", [])) > 1})
         # find() raises LookupError, or ValueError from int() while compiling a malformed bracket; nothing else
         for r in (observed, as_list):
             if r.get("error") not in (None, "LookupError", "ValueError"):
@@ -433,6 +450,15 @@ class C14(Property):
         return fails
 
     def classify(self, case, failure):
+        # KF-C14-c: the path was given as a tuple of != 1 segments, single and strict, several elements match: the
+        # "matched multiple elements" message is formatted with `% path` and raises TypeError
+        if failure.get("clause") == "segments-equal-string":
+            if (case.get("as_segments") == "tuple" and len(case["path"].split("/")) != 1 and case["single"]
+                    and case["strict"] and failure.get("several")
+                    and failure.get("observed") == {"error": "TypeError"}
+                    and failure.get("expected") == {"error": "LookupError"}):
+                return "KF-C14-c"
+            return None
         # KF-C14-a: the path has an `X/..` pair (X a name, index or slice step, `.` steps ignored) and the
         # implementation returns exactly the denotation of the path with those pairs deleted
         if failure.get("clause") != "denotation":
@@ -492,6 +518,8 @@ class C14(Property):
             t.append("has-sparse-dict")
         if case["start"] != case["tree"]["id"]:
             t.append("start-below-root")
+        if case.get("as_segments"):
+            t.append("path-as-%s" % case["as_segments"])
         return sorted(set(t))
 
     def shrink_candidates(self, case):
